@@ -85,6 +85,73 @@ def options(r, datetime):
                 unidecode=None, preamble=None)
 
 
+def lost_keys(samples, reg, root_name="Root"):
+    """-> description of an input key that is NOT a key of the model typing its position (a key altered before the label step
+    can never be recovered from the field), or None.  Objects typed as mappings (Dict[str, T]) have no fields: their values
+    are followed, their keys are not looked up.  Under a Union an object must fit at least one candidate model."""
+    from json_to_models.dynamic_typing import DDict, DList, DOptional, DUnion, ModelPtr
+
+    def models_of(t):
+        if isinstance(t, DOptional):
+            return models_of(t.type)
+        if isinstance(t, DUnion):
+            return [m for x in t.types for m in models_of(x)]
+        if isinstance(t, ModelPtr):
+            return [t.type]
+        return []
+
+    def inner(t, cls):
+        if isinstance(t, DOptional):
+            return inner(t.type, cls)
+        if isinstance(t, DUnion):
+            return [y for x in t.types for y in inner(x, cls)]
+        return [t.type] if isinstance(t, cls) else []
+
+    def visit(v, t, path, depth=0):
+        if depth > 12:
+            return None
+        if isinstance(v, dict):
+            cands = models_of(t)
+            if cands and v:
+                fits = [m for m in cands if all(k in m.type for k in v)]
+                if not fits:
+                    miss = [k for k in v if all(k not in m.type for m in cands)]
+                    return f"{path}: input key(s) {miss[:3]!r} are not keys of the model(s) {[m.name for m in cands]} typing that position"
+                first = None
+                for m in fits:                 # an object under a Union fits when SOME candidate model takes it, all the way down
+                    bad = None
+                    for k, x in v.items():
+                        bad = visit(x, m.type[k], f"{path}.{k}", depth + 1)
+                        if bad:
+                            break
+                    if bad is None:
+                        return None
+                    first = first or bad
+                return first
+            else:
+                for et in inner(t, DDict):
+                    for k, x in v.items():
+                        r = visit(x, et, f"{path}[{k!r}]", depth + 1)
+                        if r:
+                            return r
+        elif isinstance(v, list):
+            for et in inner(t, DList):
+                for i, x in enumerate(v):
+                    r = visit(x, et, f"{path}[{i}]", depth + 1)
+                    if r:
+                        return r
+        return None
+    roots = [m for m in reg.models if any(p.parent is None for p in m.pointers)]
+    if len(roots) != 1:
+        return None
+    ptr = [p for p in roots[0].pointers if p.parent is None][0]
+    for i, s in enumerate(samples):
+        r = visit(s, ptr, f"sample {i}")
+        if r:
+            return r
+    return None
+
+
 def drive(chk, build, props_file, gen_modules, keyfn, want, classify, n_quick, n_thorough, corpus=(), extra=None):
     tier = chk.tier
     proofs_ok = base.proof_obligations(chk, build, [props_file], list(gen_modules))
@@ -140,6 +207,10 @@ def drive(chk, build, props_file, gen_modules, keyfn, want, classify, n_quick, n
             o["structure"] = "flat"
             info["options"]["structure"] = "flat"
         tags = emitcheck.reserved_tags(reg, o)
+        if "roots" not in info and "keys" in want:
+            lk = lost_keys(s, reg)
+            if lk:
+                oracle_failed |= chk.fail("oracle", dict(info, failure_kind="lost-key"), lk)
         # X-emit first (it renders, which converts the names in place; rendering is idempotent on names)
         try:
             t, text, err = emitcase.emit_case(reg, o)
